@@ -475,7 +475,7 @@ fn target_faults() -> usize {
         }
     }
     // the root is readable when the run starts but rejected later (unnest re-reads the root)
-    for src in ["unnest!(.foo)", "x = unnest(.foo) ?? []\nx"] {
+    for src in ["unnest!(.foo)", "x = unnest(.foo) ?? []\nx", ".", "x = encode_json(.)\nx", "exists(.)", ".a = .\n.a", "%", "del(.)", "x = .\nexists(.foo)"] {
         let fns = vrl::stdlib::all();
         let Ok(res) = compile(src, &fns) else { bad += 1; fail("target_faults", src, "compiles", "compile error"); continue };
         let before = ev(r#"{"foo": [1, 2]}"#);
@@ -624,6 +624,42 @@ fn op_typing() -> usize {
                             }
                         }
                     }
+                }
+            }
+        }
+    }
+    // scripted programs whose operands change variables: accepted without error handling => every run
+    // succeeds with a result inside the reported kind (a compile error is an acceptable outcome)
+    let scripted: &[(&str, &[&str])] = &[
+        ("x = 2\ny = (x = 0) / x\ny", &["{}"]),
+        ("x = 2\ny = { x = 0; 10 } / x\ny", &["{}"]),
+        ("x = 2.5\n(x = 0.0) / x", &["{}"]),
+        ("x = 4\nx = 2\n.out = ({ x = x - 2; 7 }) / x", &["{}"]),
+        ("x = 0\ny = (x = 2) / x\ny", &["{}"]),
+        ("x = true\nif .flag == true { x = false }\n.r = x || 5\n.r", &["{\"flag\": false}", "{\"flag\": true}"]),
+        ("x = null\nif .flag == true { x = false } else { x = true }\n.r = x || \"fallback\"\n.r", &["{\"flag\": false}", "{\"flag\": true}"]),
+        ("x = false\nif .flag == true { x = true }\n.r = x && 5 == 5\n.r", &["{\"flag\": false}", "{\"flag\": true}"]),
+        ("x = 1\nif .flag == true { x = 0 }\n.r = 10 / x\n.r", &["{\"flag\": false}", "{\"flag\": true}"]),
+        ("x = 1\nif .flag == true { x = \"s\" }\n.r = x\n.r", &["{\"flag\": false}", "{\"flag\": true}"]),
+    ];
+    for (src, events) in scripted {
+        let Ok(res) = compile(src, &fns) else { continue };
+        let reported = res.program.final_type_info().result.kind().clone();
+        for ev in *events {
+            let event: Value = serde_json::from_str::<serde_json::Value>(ev).expect("json").into();
+            let mut target = TargetValue { value: event, metadata: Value::Object(BTreeMap::new()), secrets: Secrets::default() };
+            let mut rt = Runtime::default();
+            let case = format!("`{}` on {ev}", src.replace('\n', "; "));
+            match rt.resolve(&mut target, &res.program, &TimeZone::default()) {
+                Ok(v) => {
+                    if reported.is_superset(&Kind::from(&v)).is_err() {
+                        bad += 1;
+                        fail("op_typing", &case, &format!("result inside the reported kind `{reported}`"), &v.to_string());
+                    }
+                }
+                Err(e) => {
+                    bad += 1;
+                    fail("op_typing", &case, "accepted without error handling, so it must not fail at runtime", &e.to_string());
                 }
             }
         }
@@ -817,6 +853,143 @@ fn format_number() -> usize {
     bad
 }
 
+/// C08/C01 witness: `ok, err = e` -- after a run, the values stored in ok and err belong to the kinds
+/// the compiler reports for them in the final event type, for operands that make e fail or succeed.
+fn assign_typing() -> usize {
+    use vrl::compiler::{compile_with_external, state::ExternalEnv, CompileConfig};
+    use vrl::value::kind::Collection;
+    use vrl::value::Kind;
+    use vrl::path::{parse_value_path, PathPrefix};
+    let fns = vrl::stdlib::all();
+    let mut bad = 0;
+    let kinds: Vec<(&str, Kind, Vec<Value>)> = vec![
+        ("any", Kind::any(), vec![Value::Boolean(true), Value::Integer(1), Value::from("s"), Value::Null]),
+        ("integer", Kind::integer(), vec![Value::Integer(0), Value::Integer(5)]),
+        ("integer|bytes", Kind::integer().or_bytes(), vec![Value::Integer(2), Value::from("x")]),
+        ("boolean", Kind::boolean(), vec![Value::Boolean(false)]),
+    ];
+    let exprs = [".a + .b", ".a * .b", ".a / .b", ".a - .b", "to_int(.a) ?? to_float(.b)", "to_string(.a)", "(.a + .b) ?? .a"];
+    let mut checked = 0;
+    for e in exprs {
+        for (n1, k1, v1s) in &kinds {
+            for (n2, k2, v2s) in &kinds {
+                let mut known = BTreeMap::new();
+                known.insert("a".into(), k1.clone());
+                known.insert("b".into(), k2.clone());
+                let target = Kind::object(Collection::from_parts(known, Kind::undefined()));
+                let external = ExternalEnv::new_with_kind(target, Kind::object(Collection::empty()));
+                let src = format!(".ok, .err = {e}\n.ok");
+                let Ok(res) = compile_with_external(&src, &fns, &external, CompileConfig::default()) else { continue };
+                let info = res.program.final_type_info();
+                let tk = info.state.external.kind(PathPrefix::Event);
+                let ok_kind = tk.at_path(&parse_value_path("ok").expect("path"));
+                let err_kind = tk.at_path(&parse_value_path("err").expect("path"));
+                for v1 in v1s {
+                    for v2 in v2s {
+                        let mut obj = BTreeMap::new();
+                        obj.insert("a".into(), v1.clone());
+                        obj.insert("b".into(), v2.clone());
+                        let mut target = TargetValue { value: Value::Object(obj), metadata: Value::Object(BTreeMap::new()), secrets: Secrets::default() };
+                        let mut rt = Runtime::default();
+                        let case = format!("`.ok, .err = {e}` with .a: {n1} = {v1}, .b: {n2} = {v2}");
+                        checked += 1;
+                        if rt.resolve(&mut target, &res.program, &TimeZone::default()).is_err() { continue }
+                        let Value::Object(o) = &target.value else { continue };
+                        for (name, kind) in [("ok", &ok_kind), ("err", &err_kind)] {
+                            let stored = o.get(name).cloned().unwrap_or(Value::Null);
+                            if kind.is_superset(&Kind::from(&stored)).is_err() {
+                                bad += 1;
+                                if bad <= 12 { fail("assign_typing", &case, &format!(".{name} inside its reported kind `{kind}`"), &stored.to_string()); }
+                            }
+                        }
+                    }
+                }
+            }
+        }
+    }
+    eprintln!("assign_typing: {checked} runs checked");
+    if checked < 100 { fail("assign_typing", "witness domain", "at least 100 accepted program runs", &checked.to_string()); bad += 1; }
+    bad
+}
+
+/// C03 witness: the value a stdlib call returns belongs to the kind the compiler reports for the call
+/// (slice on literal arrays of mixed element kinds, every in-range start/end).
+fn stdlib_types() -> usize {
+    use vrl::value::Kind;
+    let fns = vrl::stdlib::all();
+    let mut bad = 0;
+    let arrays = ["[1, \"a\"]", "[1, \"a\", true]", "[\"a\", \"b\"]", "[1, 2, 3]", "[null, 1.5]"];
+    for a in arrays {
+        for s in -3..=3i64 {
+            for e in (-3..=3i64).map(Some).chain([None]) {
+                let src = match e { Some(e) => format!("slice!({a}, {}, {})", lit(s), lit(e)), None => format!("slice!({a}, {})", lit(s)) };
+                let Ok(res) = compile(&src, &fns) else { continue };
+                let reported = res.program.final_type_info().result.kind().clone();
+                let mut target = TargetValue { value: Value::Object(BTreeMap::new()), metadata: Value::Object(BTreeMap::new()), secrets: Secrets::default() };
+                let mut rt = Runtime::default();
+                if let Ok(v) = rt.resolve(&mut target, &res.program, &TimeZone::default()) {
+                    if reported.is_superset(&Kind::from(&v)).is_err() {
+                        bad += 1;
+                        if bad <= 6 { fail("stdlib_types", &src, &format!("a value of the declared kind `{reported}`"), &v.to_string()); }
+                    }
+                }
+            }
+        }
+    }
+    bad
+}
+
+/// C19 witness / stand-in: union and merge at the level of collection kinds.  For small object / array
+/// kinds A, B and values v: v in A or v in B  =>  v in A.union(B), and A.union(B) is a superset of both.
+fn kind_union() -> usize {
+    use vrl::value::kind::Collection;
+    use vrl::value::Kind;
+    let f = |pairs: Vec<(&str, Kind)>| -> BTreeMap<vrl::value::kind::Field, Kind> { pairs.into_iter().map(|(k, v)| (k.into(), v)).collect() };
+    let arr = |items: Vec<Kind>| -> Kind { Kind::array(items.into_iter().enumerate().map(|(i, k)| (i.into(), k)).collect::<BTreeMap<vrl::value::kind::Index, Kind>>()) };
+    let kinds: Vec<(&str, Kind)> = vec![
+        ("{}", Kind::object(Collection::empty())),
+        ("{a: integer}", Kind::object(f(vec![("a", Kind::integer())]))),
+        ("{a: string}", Kind::object(f(vec![("a", Kind::bytes())]))),
+        ("{a: integer, b: string}", Kind::object(f(vec![("a", Kind::integer()), ("b", Kind::bytes())]))),
+        ("{b: boolean}", Kind::object(f(vec![("b", Kind::boolean())]))),
+        ("object", Kind::object(Collection::any())),
+        ("{o: {}}", Kind::object(f(vec![("o", Kind::object(Collection::empty()))]))),
+        ("{o: {a: string}}", Kind::object(f(vec![("o", Kind::object(f(vec![("a", Kind::bytes())])))]))),
+        ("[]", Kind::array(Collection::empty())),
+        ("[integer]", arr(vec![Kind::integer()])),
+        ("[integer, string]", arr(vec![Kind::integer(), Kind::bytes()])),
+        ("[string]", arr(vec![Kind::bytes()])),
+        ("array", Kind::array(Collection::any())),
+        ("integer", Kind::integer()),
+        ("string|null", Kind::bytes().or_null()),
+        ("{a: integer}|null", Kind::object(f(vec![("a", Kind::integer())])).or_null()),
+        ("[integer]|{}", arr(vec![Kind::integer()]).or_object(Collection::empty())),
+    ];
+    let ev = |json: &str| -> Value { serde_json::from_str::<serde_json::Value>(json).map(Value::from).unwrap() };
+    let values: Vec<Value> = ["{}", "{\"a\": 1}", "{\"a\": \"s\"}", "{\"a\": 1, \"b\": \"s\"}", "{\"b\": true}", "{\"o\": {}}", "{\"o\": {\"a\": \"x\"}}",
+                              "[]", "[1]", "[1, \"s\"]", "[\"s\"]", "1", "\"s\"", "null"].iter().map(|j| ev(j)).collect();
+    let mut bad = 0;
+    for (na, a) in &kinds {
+        for (nb, b) in &kinds {
+            let u = a.union(b.clone());
+            for (side, k) in [("left", a), ("right", b)] {
+                if u.is_superset(k).is_err() {
+                    bad += 1;
+                    if bad <= 12 { fail("kind_union", &format!("({na}).union({nb})"), &format!("a superset of its {side} operand"), &u.to_string()); }
+                }
+            }
+            for v in &values {
+                let kv = Kind::from(v);
+                if (a.is_superset(&kv).is_ok() || b.is_superset(&kv).is_ok()) && u.is_superset(&kv).is_err() {
+                    bad += 1;
+                    if bad <= 12 { fail("kind_union", &format!("({na}).union({nb}) and the value {v}"), "the value of one operand's kind belongs to the union", &format!("union = {u}")); }
+                }
+            }
+        }
+    }
+    bad
+}
+
 fn main() {
     let unit = std::env::args().nth(1).unwrap_or_default();
     if unit == "format_number_case" {
@@ -836,6 +1009,9 @@ fn main() {
         "op_typing" => op_typing(),
         "string_arith" => string_arith(),
         "collection_laws" => collection_laws(),
+        "kind_union" => kind_union(),
+        "stdlib_types" => stdlib_types(),
+        "assign_typing" => assign_typing(),
         "format_number" => format_number(),
         _ => {
             eprintln!("unknown witness unit {unit}");
